@@ -249,10 +249,8 @@ func c07(r *Report, s *Sem) {
 		}
 		return true, ""
 	}
-	okF, whyF := termOK(map[string][]hsOut{"established": finOuts["established"]}, "finished")
-	r.Check(R4, "func (*ServerChannel).FinishSession / leaves the channel finished", p.pos(fin.Pos()), okF, whyF)
-	okX, whyX := termOK(failOuts, "failed")
-	r.Check(R4, "func (*ServerChannel).FailSession / leaves the channel failed", p.pos(fail.Pos()), okX, whyX)
+	_ = termOK
+	checkTerminatingCallsTerminal(r, s, R4)
 
 	// ---- R5
 	nfo := 0
@@ -295,6 +293,12 @@ func c07(r *Report, s *Sem) {
 		}
 		r.Check(R5, "func "+fnName(fn)+" / FailSession reason "+reasonText(reason), p.instrPos(c), ok && used, "failing call needs a Reason with a non-empty constant description, and its result must not be dropped")
 	}
+
+	R7 := r.Rule("R7", "wrong id echoed ⇒ failed: the id of every client session envelope read by a server handshake function is compared with the channel's id (empty for the first) before any callback or non-failing emission can be reached", 4)
+	checkIDAfterEveryRead(r, s, R7)
+	R8 := r.Rule("R8", "option or scheme that was not offered ⇒ failed: the negotiation confirmation and the authentication callback are reachable only through the ok edges of lookups of the client's selection in sets built from the offered lists", 4)
+	checkNegotiationGate(r, s, R8)
+	checkSchemeGate(r, s, R8)
 
 	// ---- R6
 	for _, fn := range []*ssa.Function{fin, fail} {
